@@ -124,6 +124,19 @@ def check_series(case, ctx):
     out = call(lambda: np.asarray(ar.update(q0.copy(), w.copy(), method="closed", dt=dt), float))
     if ctx.returned(out, route=r):
         ctx.le("closed form = exponential map (one step)", qd(out.value, ref), 1e-14, route=r)
+    # the batch constructor with the same options: row 1 of AngularRate(gyr, method='series', order=k) is the one-step update of that order
+    for k in (0, 2, 3, 5, 6):
+        nb = 4
+        outb = call(lambda: np.asarray(ahrs.filters.AngularRate(np.tile(w, (nb, 1)), q0=q0.copy(), Dt=dt, method="series", order=k).Q, float))
+        if not ctx.returned(outb, clause="no-exception[batch, series]", route=r):
+            continue
+        Qb = outb.value
+        q_ = q0.copy()
+        worst = 0.0
+        for t in range(1, nb):
+            q_ = np.asarray(ar.update(q_, w.copy(), method="series", order=k, dt=dt), float)
+            worst = max(worst, qd(Qb[t], q_))
+        ctx.le("batch AngularRate(method='series', order=k) rows = repeated update(order=k)", worst, 1e-14, {"order": k, "x": x}, route=r, region="series:order%d" % k)
 
 
 def check_step(case, ctx):
